@@ -10,6 +10,7 @@ import (
 	"testing/synctest"
 	"time"
 
+	"github.com/platinummonkey/go-concurrency-limits/core"
 	"pgregory.net/rapid"
 
 	"verifharness/kit"
@@ -26,6 +27,10 @@ type c13Case struct {
 	Free        bool     `json:"free"`                   // capacity is free from the start (nobody holds the token)
 	CtxDeadline bool     `json:"ctx_deadline,omitempty"` // has_cancel: the context is not cancelled by hand, it carries a deadline at cancel_ns (context.WithDeadline)
 	Rival       bool     `json:"rival,omitempty"`        // a second caller arrives at the same instant (no cancellation in these cases)
+	// NoCap: the limiter is built for two units, both are held, then the enforced limit is lowered to one. The release
+	// of one holder (at release_ns) therefore offers nothing: the caller is woken / looked at, finds no capacity and
+	// must still come back exactly at its bound.
+	NoCap bool `json:"no_cap,omitempty"`
 }
 
 func genC13(t *rapid.T) c13Case {
@@ -106,6 +111,10 @@ func genC13(t *rapid.T) c13Case {
 	if !c.HasCancel && !c.Free && c.Stack.Kind != "blocking" && bound > 0 && rapid.Bool().Draw(t, "rival") {
 		c.Rival = true
 	}
+	if !c.Free && !c.Rival && c.HasRel && c.Stack.Kind != "pool" && rapid.IntRange(0, 2).Draw(t, "noCap") == 0 {
+		c.NoCap = true
+		c.Stack.Limit = 2
+	}
 	return c
 }
 
@@ -123,6 +132,7 @@ func runC13InBubble(c c13Case) (out kit.Outcome) {
 	kind := c.Stack.Kind
 	A := time.Duration(c.ArriveNs)
 	var holder *vtCaller
+	var holder2 core.Listener // NoCap: keeps the second unit until the case is unwound
 	if !c.Free {
 		// the holder acquires through the outer limiter (at +0, before any generated deadline) so that
 		// its completion goes through the wrapper's listener
@@ -131,6 +141,21 @@ func runC13InBubble(c c13Case) (out kit.Outcome) {
 			return kit.Outcome{Harness: "prefill refused"}
 		}
 		holder = &vtCaller{L: l, OK: true, Done: true}
+		if c.NoCap {
+			l2, ok2 := st.lim.Acquire(stackKeyCtx(t0ctx(), "a"))
+			if !ok2 || l2 == nil {
+				return kit.Outcome{Harness: "second prefill refused"}
+			}
+			holder2 = l2
+			switch {
+			case st.simple != nil:
+				st.simple.SetLimit(1)
+			case st.precise != nil:
+				st.precise.SetLimit(1)
+			default:
+				return kit.Outcome{Harness: "no-capacity case needs a plain strategy"}
+			}
+		}
 	}
 	var caller *vtCaller
 	if c.HasCancel && c.CtxDeadline {
@@ -202,7 +227,7 @@ func runC13InBubble(c c13Case) (out kit.Outcome) {
 	R := never // instant at which capacity is offered
 	if holder == nil {
 		R = 0
-	} else if c.HasRel {
+	} else if c.HasRel && !c.NoCap {
 		R = time.Duration(c.RelNs)
 	}
 	cancelAt := never
@@ -350,6 +375,9 @@ func runC13InBubble(c c13Case) (out kit.Outcome) {
 	if holder != nil && !released {
 		complete(holder.L, 1)
 	}
+	if holder2 != nil {
+		complete(holder2, 1)
+	}
 	msg := w.unwind(2 * time.Second)
 	w.flush()
 	if viol != nil {
@@ -370,6 +398,9 @@ func runC13InBubble(c c13Case) (out kit.Outcome) {
 	}
 	if preCancelled {
 		out.Labels = append(out.Labels, "pre-cancelled")
+	}
+	if c.NoCap {
+		out.Labels = append(out.Labels, "release-without-usable-capacity")
 	}
 	if c.Stack.DeadlineFar > 0 {
 		out.Labels = append(out.Labels, "deadline-far-future")
